@@ -16,7 +16,7 @@
 //! assumes: every relator letter g satisfies 1 <= |g| <= n (documented precondition: generators are 1..=n).
 //! not decided: matrices with min(R, n) >= 3, entries beyond the bounds (in particular isize overflow in the
 //!          unimodular steps for huge exponent sums).
-//! stubs:   none.
+//! stubs:   std `<[usize]>::sort` -> insertion sort (Kani only; see stub_sort). No crate function is stubbed.
 #![allow(unused_imports, dead_code)]
 use super::*;
 use crate::verif_support::{assume, reach_end, vin};
@@ -319,6 +319,64 @@ fn abinv_body<const R: usize, const N: usize, const L: usize, const K: usize>(re
     std::mem::forget((rels, got));
 }
 
+/// diagonal 3x3 input: relators g_i^(s_i * e_i); exercises the divisibility-chain fix-up
+fn abinv_diag3_body<const E: usize, const K: usize>(reach: bool) {
+    let mut rels: Vec<FreeWord> = Vec::with_capacity(3);
+    let mut ex = [0isize; 3];
+    let mut i = 0;
+    while i < 3 {
+        let e: usize = vin();
+        let neg: bool = vin();
+        assume(e <= E);
+        let g = if neg { -(i as isize + 1) } else { i as isize + 1 };
+        let mut letters = [0isize; E];
+        let mut k = 0;
+        while k < E {
+            if k < e {
+                letters[k] = g;
+            }
+            k += 1;
+        }
+        rels.push(FreeWord::new(letters));
+        ex[i] = e as isize;
+        i += 1;
+    }
+    let got = abelian_invariants(3, rels.iter());
+    // oracle for a diagonal matrix diag(e1, e2, e3)
+    let (a, b, c) = (ex[0], ex[1], ex[2]);
+    let rank = (a != 0) as usize + (b != 0) as usize + (c != 0) as usize;
+    let d1 = ogcd::<K>(ogcd::<K>(a, b), c);
+    let d2 = ogcd::<K>(ogcd::<K>(a * b, a * c), b * c);
+    let d3 = a * b * c;
+    let f1 = d1;
+    let f2 = if rank >= 2 { d2 / d1 } else { 1 };
+    let f3 = if rank == 3 { d3 / d2 } else { 1 };
+    let mut want = [0usize; 3];
+    let mut n = 3 - rank;
+    if rank >= 1 && f1 != 1 {
+        want[n] = f1 as usize;
+        n += 1;
+    }
+    if rank >= 2 && f2 != 1 {
+        want[n] = f2 as usize;
+        n += 1;
+    }
+    if rank == 3 && f3 != 1 {
+        want[n] = f3 as usize;
+        n += 1;
+    }
+    assert!(got.len() == n, "C14.abinv.diag3.length");
+    let mut i = 0;
+    while i < 3 {
+        if i < n {
+            assert!(got[i] == want[i], "C14.abinv.diag3.value");
+        }
+        i += 1;
+    }
+    reach_end(reach);
+    std::mem::forget((rels, got));
+}
+
 /// the degenerate shapes: no generators, no relators
 fn abinv_degenerate_body(reach: bool) {
     let none: Vec<FreeWord> = Vec::new();
@@ -339,40 +397,61 @@ fn abinv_degenerate_body(reach: bool) {
     std::mem::forget((none, r0, r1));
 }
 
+/// functional model of `<[usize]>::sort` (insertion sort). std's driftsort does not leave symbolic
+/// execution when the slice LENGTH is symbolic (all size classes are explored); std is trusted, and for
+/// integer keys any correct sort is observationally the same.
+#[cfg(kani)]
+fn stub_sort<T: Ord>(s: &mut [T]) {
+    let n = s.len();
+    let mut i = 1;
+    while i < n {
+        let mut j = i;
+        while j > 0 && s[j - 1] > s[j] {
+            s.swap(j - 1, j);
+            j -= 1;
+        }
+        i += 1;
+    }
+}
+
 macro_rules! proofs {
     ($($name:ident => $call:expr;)*) => {$(
         #[cfg_attr(kani, kani::proof)]
+        #[cfg_attr(kani, kani::stub(<[usize]>::sort, stub_sort))]
         #[cfg_attr(verif_replay, test)]
         fn $name() { $call }
     )*};
 }
 
-// @harness c14_gcdx_a12 tier=quick unwind=8 block=64 mem=4 timeout=900
-// @harness c14_gcdx_a12_reach tier=quick unwind=8 block=64 mem=4 timeout=900 twin
+// @harness c14_gcdx_a12 tier=quick unwind=8 block=64 mem=3 timeout=904
+// @harness c14_gcdx_a12_reach tier=quick unwind=8 block=64 mem=3 timeout=900 twin
 // @harness c14_gcdx_a40 tier=thorough unwind=11 block=64 mem=8 timeout=3000
-// @harness c14_diag_1x2_e3 tier=quick unwind=6 block=64 mem=10 timeout=900
-// @harness c14_diag_2x1_e3 tier=quick unwind=6 block=64 mem=6 timeout=900
-// @harness c14_diag_2x2_e2 tier=quick unwind=7 block=64 mem=30 timeout=1800
-// @harness c14_diag_2x2_e2_reach tier=quick unwind=7 block=64 mem=20 timeout=1800 twin
+// @harness c14_diag_1x2_e3 tier=quick unwind=6 block=64 mem=9 timeout=900
+// @harness c14_diag_2x1_e3 tier=quick unwind=6 block=64 mem=3 timeout=900
+// @harness c14_diag_2x2_e2 tier=quick unwind=7 block=64 mem=34 timeout=2400
+// @harness c14_diag_2x2_e2_reach tier=quick unwind=7 block=64 mem=19 timeout=900 twin
 // @harness c14_diag_2x2_e3 tier=thorough unwind=8 block=64 mem=44 timeout=3600 stretch
+// @harness c14_diag_2x2_e6 tier=thorough unwind=9 block=64 mem=48 timeout=3600 stretch
+// @harness c14_abinv_diag3_e3 tier=thorough unwind=9 block=256 small=64 mem=48 timeout=3600 stretch
+// @harness c14_abinv_diag3_e5 tier=thorough unwind=13 block=256 small=64 mem=48 timeout=3600 stretch
 // @harness c14_diag_2x3_e2 tier=thorough unwind=8 block=64 mem=44 timeout=3600 stretch
 // @harness c14_diag_3x2_e2 tier=thorough unwind=8 block=64 mem=44 timeout=3600 stretch
-// @harness c14_relvec_sums_n2_l3 tier=quick unwind=7 block=256 mem=6 timeout=900
-// @harness c14_relvec_sums_n2_l3_reach tier=quick unwind=7 block=256 mem=6 timeout=900 twin
-// @harness c14_relvec_inverse_n2_l2 tier=quick unwind=7 block=256 mem=8 timeout=900
-// @harness c14_relvec_conj_n2_l2 tier=quick unwind=7 block=256 mem=20 timeout=1500
-// @harness c14_relvec_product_n2_l2 tier=quick unwind=7 block=256 mem=16 timeout=1500
-// @harness c14_relvec_rotation_n2_l2 tier=quick unwind=7 block=256 mem=8 timeout=900
-// @harness c14_relvec_rotation_n2_l2_reach tier=quick unwind=7 block=256 mem=8 timeout=900 twin
-// @harness c14_relvec_conj_n2_l3 tier=thorough unwind=9 block=256 mem=40 timeout=3600 stretch
-// @harness c14_relvec_product_n3_l3 tier=thorough unwind=9 block=256 mem=40 timeout=3600 stretch
-// @harness c14_abinv_degenerate tier=quick unwind=6 block=64 mem=4 timeout=900
-// @harness c14_abinv_degenerate_reach tier=quick unwind=6 block=64 mem=4 timeout=900 twin
-// @harness c14_abinv_r1_n1_l3 tier=quick unwind=7 block=256 mem=16 timeout=1500
-// @harness c14_abinv_r1_n2_l2 tier=quick unwind=7 block=256 mem=24 timeout=1800
-// @harness c14_abinv_r1_n2_l2_reach tier=quick unwind=7 block=256 mem=24 timeout=1800 twin
-// @harness c14_abinv_r2_n1_l2 tier=thorough unwind=7 block=256 mem=30 timeout=3600
-// @harness c14_abinv_r2_n2_l2 tier=thorough unwind=8 block=256 mem=44 timeout=3600 stretch
+// @harness c14_relvec_sums_n2_l3 tier=quick unwind=7 block=256 mem=3 timeout=900
+// @harness c14_relvec_sums_n2_l3_reach tier=quick unwind=7 block=256 mem=2 timeout=900 twin
+// @harness c14_relvec_inverse_n2_l2 tier=quick unwind=7 block=256 mem=5 timeout=900
+// @harness c14_relvec_conj_n2_l2 tier=quick unwind=7 block=256 small=64 mem=22 timeout=2704
+// @harness c14_relvec_product_n2_l2 tier=quick unwind=7 block=256 small=64 mem=14 timeout=1484
+// @harness c14_relvec_rotation_n2_l2 tier=quick unwind=7 block=256 mem=5 timeout=900
+// @harness c14_relvec_rotation_n2_l2_reach tier=quick unwind=7 block=256 mem=3 timeout=900 twin
+// @harness c14_relvec_conj_n2_l3 tier=thorough unwind=9 block=256 small=64 mem=40 timeout=3600 stretch
+// @harness c14_relvec_product_n3_l3 tier=thorough unwind=9 block=256 small=64 mem=40 timeout=3600 stretch
+// @harness c14_abinv_degenerate tier=quick unwind=6 block=64 mem=2 timeout=900
+// @harness c14_abinv_degenerate_reach tier=quick unwind=6 block=64 mem=2 timeout=900 twin
+// @harness c14_abinv_r1_n1_l3 tier=quick unwind=5 block=256 small=64 mem=3 timeout=900
+// @harness c14_abinv_r1_n2_l2 tier=quick unwind=5 block=256 small=64 mem=11 timeout=1503
+// @harness c14_abinv_r1_n2_l2_reach tier=quick unwind=5 block=256 small=64 mem=12 timeout=1800 twin
+// @harness c14_abinv_r2_n1_l2 tier=thorough unwind=7 block=256 small=64 mem=30 timeout=3600
+// @harness c14_abinv_r2_n2_l2 tier=thorough unwind=8 block=256 small=64 mem=44 timeout=3600 stretch
 proofs! {
     c14_gcdx_a12 => gcdx_body::<12, 6>(false);
     c14_gcdx_a12_reach => gcdx_body::<12, 6>(true);
@@ -382,6 +461,9 @@ proofs! {
     c14_diag_2x2_e2 => diag_body::<2, 2, 2, 5>(false);
     c14_diag_2x2_e2_reach => diag_body::<2, 2, 2, 5>(true);
     c14_diag_2x2_e3 => diag_body::<2, 2, 3, 6>(false);
+    c14_diag_2x2_e6 => diag_body::<2, 2, 6, 9>(false);
+    c14_abinv_diag3_e3 => abinv_diag3_body::<3, 7>(false);
+    c14_abinv_diag3_e5 => abinv_diag3_body::<5, 11>(false);
     c14_diag_2x3_e2 => diag_body::<2, 3, 2, 5>(false);
     c14_diag_3x2_e2 => diag_body::<3, 2, 2, 5>(false);
     c14_relvec_sums_n2_l3 => relvec_body::<2, 3, 0>(false);
